@@ -115,9 +115,30 @@ func c12State(p string) (key string, dead bool) {
 		return "", true
 	}
 	if o.Err != nil && int(o.Err.Index) == len(p) && strings.Contains(o.Err.Msg, "byte zero") {
-		return o.State, false
+		// product with the oracle's own state: the per-directive shape automaton over the lexemes emitted so far
+		return o.State + "|shape=" + shapeState(o.Lex), false
 	}
 	return "opaque:" + p, false
+}
+
+// shapeState replays the well-formedness automaton of c12WellFormed over a lexeme stream and returns its state.
+func shapeState(lex []impl.Lex) string {
+	state := 0
+	for _, l := range lex {
+		switch l.Type {
+		case "K":
+			state = 1
+		case "A":
+			state = 2
+		case "(":
+			state = 3
+		case "S", "T", "E", "J":
+			state = 4
+		case ")":
+			state = 0
+		}
+	}
+	return fmt.Sprint(state)
 }
 
 func workC12BFS(w *run.W) {
@@ -320,7 +341,7 @@ func buildTreeNoInclude(d *model.Doc, l *dt.Layout) *dt.File {
 }
 
 func runC12(c *chk.Ctx) {
-	p := c12Params{Depth: chk.Pick(c, 4, 6), MaxStates: chk.Pick(c, 0, 300000)}
+	p := c12Params{Depth: chk.Pick(c, 3, 5), MaxStates: chk.Pick(c, 60000, 300000)}
 	r := c.Pool.Run("c12bfs", p)
 	c.Merge(r, "transitions")
 	pe := c12ExactParams{Budget: chk.Pick(c, 3, 3), Deviation: 1, Globals: chk.Pick(c, someGlobals()[:2], allGlobals())}
